@@ -312,14 +312,14 @@ func (r *ctxRunner) runInst(s, d int, only *ctxCase) {
 		// header carries about its own contents (a "silent" or "already in range" flag) goes stale there.
 		in := append(append([]uint64{}, sp...), sp...)
 		out := make([]uint64, len(in))
-		for route := 1; route <= 3; route++ {
+		for route := 1; route <= 4; route++ {
 			if only != nil && only.Spec != route {
 				continue
 			}
 			dyn.ConvVia(s, d, route, in, out)
 			for i := range in {
 				r.check(mk("provenance", 1, route, i), s, d, in[i], out[i], base,
-					fmt.Sprintf("[source buffer %s; position %d]", [...]string{"", "filled only through Slice windows of it", "taken from a pool that recycled it, filled through windows", "first the destination of another conversion, then overwritten through a window"}[route], i))
+					fmt.Sprintf("[source buffer %s; position %d]", [...]string{"", "filled only through Slice windows of it", "taken from a pool that recycled it, filled through windows", "first the destination of another conversion, then overwritten through a window", "grown to its size by Append, like the destination"}[route], i))
 			}
 		}
 	}
@@ -345,6 +345,50 @@ func (r *ctxRunner) runInst(s, d int, only *ctxCase) {
 			}
 		}
 	}
+	// every ordered pair of special values side by side among small NEGATIVE values, in 2- and 3-channel
+	// buffers, at both alignments: per-frame fast paths that stay on while every frame so far was harmless
+	if extra && (only == nil || only.Pass == "pair-in-calm") {
+		calm2 := ctxCalmNeg(s)
+		dyn.ConvBlockCh(s, d, 1, 1)([]uint64{calm2}, one)
+		base[calm2] = one[0]
+		for _, ch := range []int{2, 3} {
+			n := 6 * ch
+			f := dyn.ConvBlockCh(s, d, n, ch)
+			in := make([]uint64, n)
+			out := make([]uint64, n)
+			for off := 0; off < 2; off++ {
+				for ai, a := range sp {
+					for bi, b := range sp {
+						if only != nil && (only.Ch != ch || only.Spec != ai*100+bi || only.Pos != off) {
+							continue
+						}
+						for i := range in {
+							in[i] = calm2
+						}
+						pos := 2*ch + off
+						in[pos], in[pos+1] = a, b
+						f(in, out)
+						for i := range in {
+							r.check(mk("pair-in-calm", ch, ai*100+bi, off), s, d, in[i], out[i], base,
+								fmt.Sprintf("[%d small negative samples in %d channels with the values %s, %s at positions %d, %d; looking at position %d]", n, ch, ctxShow(s, a), ctxShow(s, b), pos, pos+1, i))
+						}
+					}
+				}
+			}
+		}
+	}
+}
+
+// ctxCalmNeg: a small negative value of the source type (the most negative-but-harmless neighbour).
+func ctxCalmNeg(s int) uint64 {
+	ty := dyn.Types[s]
+	switch ty.Kind {
+	case dyn.Signed:
+		return uint64(^uint64(2)) // -3
+	case dyn.Unsigned:
+		return ampToRaw(dyn.Unsigned, ty.Bits, -3)
+	}
+	return math.Float64bits(-0.25)
 }
 
 // giant converts very long buffers of cycling special values; every output must pass the
